@@ -176,10 +176,19 @@ def run(ctx: Any) -> None:
                 "distinct by (server, value, is_describe); non-trivial = the service declares a version")
     model_cases: dict[tuple[Any, bool, bytes | None], tuple[int, str]] = {}
 
-    def observe_socket(srv: Any, method: str, value: bytes | None) -> tuple[bool, Any]:
-        info_schema = pa.schema([]) if method == "__describe__" else srv._methods[method].params_schema
+    def _req(srv: Any, method: str, value: bytes | None, shape: str) -> bytes:
+        """shape: ok | missing (no parameter column) | retyped (a: string) -- the gate must decide before parameters are looked at"""
         md = {} if value is None else {b"vgi_rpc.protocol_version": value}
-        data = request_bytes(method, info_schema, {"a": 1} if method != "__describe__" else None, md)
+        if method == "__describe__":
+            return request_bytes(method, pa.schema([]), None, md)
+        if shape == "missing":
+            return request_bytes(method, pa.schema([]), None, md)
+        if shape == "retyped":
+            return request_bytes(method, pa.schema([pa.field("a", pa.string(), nullable=False)]), {"a": "x"}, md)
+        return request_bytes(method, srv._methods[method].params_schema, {"a": 1}, md)
+
+    def observe_socket(srv: Any, method: str, value: bytes | None, shape: str = "ok") -> tuple[bool, Any]:
+        data = _req(srv, method, value, shape)
         if method == "g":
             from harness.rawrpc import tick_stream_bytes
             data += tick_stream_bytes(1)
@@ -190,10 +199,8 @@ def run(ctx: Any) -> None:
         st = read_streams(out)
         return bool(log), error_of(st[0]) if st else ("noreply",)
 
-    def observe_http(client: Any, srv: Any, method: str, value: bytes | None) -> tuple[bool, Any, int]:
-        info_schema = pa.schema([]) if method == "__describe__" else srv._methods[method].params_schema
-        md = {} if value is None else {b"vgi_rpc.protocol_version": value}
-        data = request_bytes(method, info_schema, {"a": 1} if method != "__describe__" else None, md)
+    def observe_http(client: Any, srv: Any, method: str, value: bytes | None, shape: str = "ok") -> tuple[bool, Any, int]:
+        data = _req(srv, method, value, shape)
         path = f"/{method}/init" if method == "g" else f"/{method}"
         del log[:]
         r = client.simulate_post(path, body=data, headers={"Content-Type": "application/vnd.apache.arrow.stream"})
@@ -253,6 +260,24 @@ def run(ctx: Any) -> None:
                 if prev is not None and prev != (code_s, cl_s):
                     ctx.violation("method-kinds-differ", "unary and stream methods decide differently", {**repl, "a": prev, "b": [code_s, cl_s]})
                 model_cases[key] = (code_s, cl_s)
+                # the gate decides BEFORE the parameters are looked at: a request that is refused for its version
+                # must get the same protocol_version_mismatch answer when its parameters are also wrong
+                if sv is not None and not is_desc and code_s > 0 and (ctx.tier == "thorough" or ctx.rng.random() < 0.34):
+                    for shape in ("missing", "retyped"):
+                        d2s, e2s = observe_socket(srv, method, value, shape)
+                        d2h, e2h, st2 = observe_http(client, srv, method, value, shape)
+                        ctx.count("impl_runs", 2)
+                        ctx.tally("shape", shape)
+                        for path, d2, e2 in (("socket", d2s, e2s), ("http", d2h, e2h)):
+                            c2, cl2 = code_of(d2, e2)
+                            if (c2, cl2) != (code_s, cl_s):
+                                ctx.violation(
+                                    "version-refusal-masked-by-parameter-error",
+                                    f"{path}: a request refused for its version ({code_s}) is answered differently ({c2}: {str(e2)[:80]}) when its parameters are also wrong ({shape})",
+                                    {**repl, "path": path, "shape": shape, "expected": [code_s, cl_s], "got": [c2, cl2]},
+                                )
+                        if st2 != 400:
+                            ctx.violation("http-refusal-not-400", f"refusal answered with HTTP {st2}", {**repl, "shape": shape, "status": st2})
                 # property oracle on the implementation itself (independent of the model)
                 if sv is not None and not is_desc:
                     canonical_same = False
